@@ -241,9 +241,14 @@ def check(ctx: Ctx) -> None:
     # the split function agrees with the separators the builders use
     sp = p.func(f"{TOK}._split_token")
     ctx.analysed(sp)
-    txt = src(sp.node)
-    ctx.check("split('-')" in txt and "split('_')" in txt, "TPL4", "_split_token splits parts on '-' and fields on '_'", function=sp.qualname,
-              construct="token splitting does not use the builders' separators", message="", file=sp.file, node=sp.node)
+    # structurally: the token parameter (or a local holding it) is split on '-', and each resulting part on '_'
+    splits = [(c, c.args[0].value) for c in ast.walk(sp.node) if isinstance(c, ast.Call) and call_method(c)[1] == "split" and len(c.args) == 1
+              and isinstance(c.args[0], ast.Constant) and isinstance(c.args[0].value, str)]
+    seps = sorted(v for _, v in splits)
+    tok_p = sp.params[-1] if sp.params else "token"
+    outer = [c for c, v in splits if v == "-" and isinstance(call_method(c)[0], ast.Name) and call_method(c)[0].id == tok_p]
+    ctx.check(seps == ["-", "_"] and len(outer) == 1, "TPL4", "_split_token splits the token on '-' and every part on '_'", function=sp.qualname,
+              construct="token splitting does not use the builders' separators", message=f"separators used: {seps}", file=sp.file, node=sp.node)
     # sort_order: TRACK, VALUE, VELOCITY before PITCH
     so = p.cls(TOK).class_attrs.get("sort_order")
     order = [enum_member(e, "TokenisationPrefixes") for e in so.elts] if isinstance(so, ast.List) else []
